@@ -50,6 +50,39 @@ def deep_compare_check():
     return out
 
 
+def dry_run_stale_backup_check():
+    """'With dry_run=True a sync ... [leaves] any file, directory or document in either project [unchanged]' also when a file named like a
+    document backup sits next to a destination document that would be merged (job and project level, conflicting and mergeable documents)"""
+    import logging
+    import signac
+    from .syncharness import snapshot
+    logging.disable(logging.CRITICAL)
+    out = []
+    for level in ("job", "project"):
+        for conflict in (False, True):
+            with dir_scratch() as d:
+                os.makedirs(d + "/src")
+                os.makedirs(d + "/dst")
+                src, dst = signac.init_project(d + "/src"), signac.init_project(d + "/dst")
+                js, jd = src.open_job({"a": 1}).init(), dst.open_job({"a": 1}).init()
+                sdoc, ddoc = (js.doc, jd.doc) if level == "job" else (src.doc, dst.doc)
+                ddoc["k"] = 1
+                sdoc["k" if conflict else "m"] = 2
+                fn = jd.fn("signac_job_document.json") if level == "job" else dst.fn("signac_project_document.json")
+                open(fn + "~", "wb").write(b'{"stale": true}')
+                before = (snapshot(src.path), snapshot(dst.path))
+                try:
+                    with contextlib.redirect_stdout(io.StringIO()):
+                        dst.sync(src, dry_run=True)
+                except Exception:
+                    pass
+                after = (snapshot(src.path), snapshot(dst.path))
+                if after != before:
+                    changed = sorted(k for i in (0, 1) for k in set(before[i]) | set(after[i]) if before[i].get(k) != after[i].get(k))[:4]
+                    out.append((f"{level}:{conflict}", f"dry run at {level} level with a backup-named file next to the destination document changed {changed}"))
+    return out
+
+
 def run(tier="quick", seed=0):
     r = run_focus("C15", tier, seed, Budget(14 if tier == "quick" else 300))
     try:
@@ -59,6 +92,15 @@ def run(tier="quick", seed=0):
     for key, msg in found[:3]:
         r["failures"].append({"key": "deep:content-only-difference:" + key, "description": msg,
                               "script": script_header() + "sys.path.insert(0, '/verif')\nfrom pybound.c15 import deep_compare_check\nr = deep_compare_check()\nassert not r, r\n"})
+    try:
+        found2 = dry_run_stale_backup_check()
+    except Exception as e:
+        found2 = [("raised", f"dry_run_stale_backup_check raised {type(e).__name__}: {e}")]
+    for key, msg in found2:
+        r["failures"].append({"key": "dry-run:stale-backup:" + key, "description": msg,
+                              "script": script_header() + "sys.path.insert(0, '/verif')\nfrom pybound.c15 import dry_run_stale_backup_check\nr = dry_run_stale_backup_check()\nassert not r, r\n"})
+    r["evaluations"] += 4
+    r["scope"] += "; dry runs next to a backup-named file"
     r["evaluations"] += 16
     r["scope"] += "; deep=True over a file that differs in content only (same size, same mtime), top level and nested, with and without a strategy, through all four entry points"
     return r
